@@ -183,7 +183,8 @@ func c13dRun(sc c13dScenario) (vs []ev.V) {
 		if fromAlias {
 			vs = append(vs, ev.Vf("discovery:records-of-insecurely-reached-name-used", "%s", desc))
 		}
-		if derr != nil && sc.AtAlias == 3 && sc.AtMX != 3 {
+		// (only a failure that names the expanded name: a lookup that timed out on a loaded machine is not the scripted SERVFAIL)
+		if derr != nil && sc.AtAlias == 3 && sc.AtMX != 3 && strings.Contains(strings.ToLower(derr.Error()), "_25._tcp."+strings.TrimSuffix(c13dName(aliases), ".")) {
 			vs = append(vs, ev.Vf("discovery:failure-at-insecurely-reached-name-decides", "%s", desc))
 		}
 	}
